@@ -46,6 +46,10 @@ func init() {
 			{Name: "ads-callback-before-unlock", File: "speaker/bgp_controller.go",
 				Old: "\tchangedSvcs := []string{} // the services that their advs changed\n\tdefer func() {\n\t\tfor _, k := range changedSvcs {\n\t\t\tc.adsChangedCallback(k)\n\t\t}\n\t}()\n\n\tc.activeAdsMutex.Lock()\n\tdefer c.activeAdsMutex.Unlock()\n",
 				New: "\tchangedSvcs := []string{} // the services that their advs changed\n\tc.activeAdsMutex.Lock()\n\tdefer c.activeAdsMutex.Unlock()\n\tdefer func() {\n\t\tfor _, k := range changedSvcs {\n\t\t\tc.adsChangedCallback(k)\n\t\t}\n\t}()\n\n", Expect: "LOCK-NOBLOCK"},
+			{Name: "D16-cursor-on-the-shared-network", File: "internal/allocator/allocator.go",
+				Old: "\treturn ipaddr.NewCursor([]ipaddr.Prefix{*ipaddr.NewPrefix(&net.IPNet{IP: cidr.IP, Mask: cidr.Mask})})", New: "\treturn ipaddr.NewCursor([]ipaddr.Prefix{*ipaddr.NewPrefix(cidr)})", Expect: "SHARED-CONFIG"},
+			{Name: "handler-sorts-configuration-slice", File: "internal/allocator/allocator.go",
+				Old: "\ta.pools = pools\n\n\t// Need to rearrange existing pool mappings and counts", New: "\ta.pools = pools\n\tfor _, pl := range pools.ByName {\n\t\tsort.Slice(pl.CIDR, func(i, j int) bool { return pl.CIDR[i].String() < pl.CIDR[j].String() })\n\t}\n\n\t// Need to rearrange existing pool mappings and counts", Expect: "SHARED-CONFIG"},
 			{Name: "interfaces-read-under-no-lock", File: "internal/layer2/announcer.go",
 				Old: "func (a *Announce) GetInterfaces() []string {\n\ta.Lock()\n\tdefer a.Unlock()\n", New: "func (a *Announce) GetInterfaces() []string {\n", Expect: "LOCK-GUARDED"},
 		},
@@ -60,6 +64,7 @@ func runC20(p *chk.Prog, r *chk.Report) {
 	c20Leak(p, r)
 	c20Reentrant(p, r)
 	c20Fetchers(p, r)
+	sharedConfigRule(p, r)
 }
 
 // c20Reentrant: no mutex is acquired again while it is certainly held (directly, or through a method called on the
@@ -258,6 +263,25 @@ func c20Entry(p *chk.Prog, r *chk.Report) {
 				if kv, ok := par.(*ast.KeyValueExpr); ok {
 					if cl, ok := p.Parent(kv).(*ast.CompositeLit); ok && listenerT != nil && types.Identical(info.TypeOf(cl), listenerT) {
 						okk = true
+					}
+				}
+			}
+			if !okk {
+				// handed to a function of this module that only calls it, at once and on this goroutine (a predicate passed
+				// to a search helper): it runs where the caller runs, under whatever lock the caller holds
+				if c, ok := par.(*ast.CallExpr); ok {
+					for i, a := range c.Args {
+						if ast.Unparen(a) == ast.Expr(sel) && !c.Ellipsis.IsValid() {
+							if callee, _ := f.Callee(c).(*types.Func); callee != nil {
+								if cf := p.FnOf(callee); cf != nil && paramOnlyCalled(p, cf, i, 0) {
+									if _, isGo := p.Parent(c).(*ast.GoStmt); !isGo {
+										if _, isDefer := p.Parent(c).(*ast.DeferStmt); !isDefer {
+											okk = true
+										}
+									}
+								}
+							}
+						}
 					}
 				}
 			}
@@ -637,4 +661,76 @@ func itoa2(i int) string {
 		return itoa(i)
 	}
 	return itoa(i/10) + itoa(i%10)
+}
+
+// paramOnlyCalled: the i-th parameter (a function value) of f is only ever called in f's own body - not stored, not
+// returned, not captured by a function literal, not started with go or deferred - or handed to a function of this
+// module that treats it the same way.
+func paramOnlyCalled(p *chk.Prog, f *chk.Fn, i int, depth int) bool {
+	pv := f.Param(i)
+	if pv == nil || f.Body == nil || depth > 2 {
+		return false
+	}
+	if sig, ok := f.Obj.Type().(*types.Signature); ok && sig.Variadic() && i >= sig.Params().Len()-1 {
+		return false
+	}
+	ok := true
+	var walk func(n ast.Node, inLit bool)
+	walk = func(root ast.Node, inLit bool) {
+		ast.Inspect(root, func(n ast.Node) bool {
+			if !ok {
+				return false
+			}
+			if lit, isLit := n.(*ast.FuncLit); isLit && n != root {
+				walk(lit, true)
+				return false
+			}
+			id, isId := n.(*ast.Ident)
+			if !isId || f.Info().Uses[id] != types.Object(pv) {
+				return true
+			}
+			if inLit {
+				ok = false
+				return false
+			}
+			par := p.Parent(id)
+			for {
+				if pe, isParen := par.(*ast.ParenExpr); isParen {
+					par = p.Parent(pe)
+					continue
+				}
+				break
+			}
+			c, isCall := par.(*ast.CallExpr)
+			if !isCall {
+				ok = false
+				return false
+			}
+			switch p.Parent(c).(type) {
+			case *ast.GoStmt, *ast.DeferStmt:
+				ok = false
+				return false
+			}
+			if ast.Unparen(c.Fun) == ast.Expr(id) {
+				return true // called
+			}
+			for k, a := range c.Args {
+				if ast.Unparen(a) == ast.Expr(id) {
+					callee, _ := f.Callee(c).(*types.Func)
+					if callee == nil || c.Ellipsis.IsValid() {
+						ok = false
+						return false
+					}
+					cf := p.FnOf(callee)
+					if cf == nil || !paramOnlyCalled(p, cf, k, depth+1) {
+						ok = false
+						return false
+					}
+				}
+			}
+			return true
+		})
+	}
+	walk(f.Body, false)
+	return ok
 }
